@@ -1,8 +1,267 @@
 import FtDriver.Json
 open Lean (Json)
 namespace FtDriver
-open Ft
+open Ft Ft.C09
 
-def handleC09 (_j : Json) : Except String Verdict := throw "C09: not implemented"
+namespace C09D
+
+abbrev TC := Tree Coord Int
+
+/-- a coordinate: an integer (one component) or a flat / nested tuple (its components in order) -/
+partial def parseCoord (j : Json) : Except String Coord :=
+  match j.getInt? with
+  | .ok i => pure [i]
+  | .error _ => do
+    let arr ← asList j
+    let parts ← arr.mapM parseCoord
+    pure parts.flatten
+
+def parseTreeC : (d : Nat) → Json → Except String (TC d)
+  | 0, j => j.getInt?
+  | d + 1, j => do
+    let arr ← asList j
+    let r ← arr.mapM (fun e => do
+      match (← asList e) with
+      | [c, t] => do
+        let c ← parseCoord c
+        let t ← parseTreeC d t
+        pure (c, t)
+      | _ => throw "tree: expected [coord, payload]")
+    pure (show List (Coord × TC d) from r)
+
+def coordJson (c : Coord) : Json :=
+  match c with
+  | [i] => jInt i
+  | _ => jInts c
+
+def treeJsonC : (d : Nat) → TC d → Json
+  | 0, v => jInt (show Int from v)
+  | d + 1, f => jList ((show List (Coord × TC d) from f).map (fun e => jList [coordJson e.1, treeJsonC d e.2]))
+
+def contentJson (c : Content Coord Int) : Json :=
+  jList (c.map (fun pv => jList [jList (pv.1.map coordJson), jInt pv.2]))
+
+/-- the component counts seen at every rank -/
+def arities : (d : Nat) → TC d → List (List Nat)
+  | 0, _ => []
+  | d + 1, f =>
+    let l := (show List (Coord × TC d) from f)
+    let below := l.foldl (fun acc e =>
+      let a := arities d e.2
+      if acc.isEmpty then a else (acc.zip a).map (fun p => (p.1 ++ p.2).eraseDups)) ([] : List (List Nat))
+    let below := if below.isEmpty then List.replicate d [] else below
+    (l.map (fun e => e.1.length)).eraseDups :: below
+
+def aritiesOk (ar : List (List Nat)) : Bool := ar.all (fun s => s.length ≤ 1 && s.all (· ≥ 1))
+def arityAt (ar : List (List Nat)) (i : Nat) : Option Nat := (ar.getD i []).head?
+/-- rank `i` holds integer coordinates (or nothing) -/
+def intAt (ar : List (List Nat)) (i : Nat) : Bool := (arityAt ar i).getD 1 == 1
+
+def hdC (c : Coord) : Coord := c.take 1
+def tlC (c : Coord) : Coord := c.drop 1
+
+def styleOf : String → Except String Style
+  | "tuple" => pure .tuple | "pair" => pure .pair | "absolute" => pure .absolute
+  | "relative" => pure .relative | "linear" => pure .linear | s => throw s!"bad style {s}"
+
+def mfOf : String → Except String (List Int → Option Int)
+  | "sum" => pure mfSum | "max" => pure mfMax | "raise" => pure mfRaise | s => throw s!"bad merge_fn {s}"
+
+/-- `comb j`: the top coordinate combined with `j+1` already merged ranks below it, for the
+    merged ranks `k … k+L` with shapes `S` -/
+def combOf (s : Style) (shapes : List Int) (k L : Nat) : Nat → Coord → Coord → Coord :=
+  fun j => flattenCoords s (((shapes.drop (k + L - j)).take (j + 1)).foldl (· * ·) 1)
+
+/-- `swiz_len` of `swizzleRanks`: the ranks above the common tail -/
+def swizLen (guide : List Nat) : Nat :=
+  let n := guide.length
+  let tail := ((List.range n).reverse.zip guide.reverse).takeWhile (fun p => p.1 == p.2)
+  n - tail.length
+
+structure StageOut where
+  agree : Bool
+  spec : Bool
+  tags : List String
+  model : Json
+  why : String := ""
+  oom : Bool := false
+
+def oomOut (why : String) : StageOut := { agree := true, spec := true, tags := ["OUT_OF_MODEL"], model := Json.null, why, oom := true }
+
+/-- observation of the implementation after a stage -/
+structure Obs where
+  err : Option String
+  tree : Json
+  dflt : Int
+  depth : Nat
+
+def parseObs (j : Json) : Except String Obs := do
+  let err := match fStr j "err" with | .ok s => some s | _ => none
+  let tree := (field j "tree").toOption.getD Json.null
+  pure { err, tree, dflt := fIntD j "dflt" 0, depth := (fNat j "depth").toOption.getD 0 }
+
+/-- compare a model result with the observation; evaluate the expected content on the observation -/
+def judge (dOut : Nat) (model : Option (TC dOut)) (mDflt : Int) (expect : Option (Content Coord Int))
+    (obs : Obs) (tags : List String) (altDflt : Option Int := none) : StageOut :=
+  let mj := match model with | some t => treeJsonC dOut t | none => Json.str "ERR"
+  match obs.err with
+  | some e =>
+    { agree := model.isNone, spec := expect.isNone, tags := tags ++ ["err"], model := mj,
+      why := s!"implementation raised {e}" }
+  | none =>
+    if obs.depth != dOut then
+      { agree := false, spec := false, tags, model := mj, why := s!"result has {obs.depth} ranks, expected {dOut}" }
+    else
+    match parseTreeC dOut obs.tree with
+    | .error e => { agree := false, spec := false, tags, model := mj, why := s!"result is not a tree of depth {dOut}: {e}" }
+    | .ok out =>
+      let agree := match model with
+        | some t => decide (t = out) && mDflt == obs.dflt
+        | none => false
+      let wf := wfB dOut out
+      let c := content obs.dflt dOut out
+      let spec := match expect with
+        | some ec => wf && decide (c = ec)
+        | none => false
+      let why := if spec then "" else
+        (if wf then "" else "result not ordered; ") ++
+        (match expect with
+         | some ec => s!"content {(contentJson c).compress} expected {(contentJson ec).compress}"
+         | none => "an exception was expected")
+      -- diagnostic only: the content would be right relative to the *input's* default
+      let dropped := !spec && wf && (match altDflt, expect with
+        | some a, some ec => decide (content a dOut out = ec)
+        | _, _ => false)
+      { agree, spec, tags := tags ++ (if c.isEmpty then ["emptyResult"] else []) ++
+          (if dropped then ["defaultDroppedOnly"] else []), model := mj, why }
+
+def treeTags (dflt : Int) (d : Nat) (t : TC d) : List String :=
+  (if decide (nonEmpty dflt d t = t) then ["canonical"] else ["hasEmptyOrDefault"]) ++
+  (if isEmpty dflt d t then ["emptyTensor"] else [])
+
+def runStage (st : Json) : Except String StageOut := do
+  let op ← fStr st "op"
+  let D ← fNat st "depth"
+  let dflt := fIntD st "dflt" 0
+  let tin ← field st "in"
+  let obs ← parseObs (← field st "out")
+  let shapes := match fArr st "shape" with
+    | .ok l => l.filterMap (fun j => j.getInt?.toOption)
+    | _ => []
+  match op with
+  | "split" =>
+    -- not modelled here (C08); the stage only feeds the next one
+    pure { agree := true, spec := obs.err.isNone, tags := ["split"], model := Json.null,
+           why := if obs.err.isNone then "" else "split raised" }
+  | "swizzle" =>
+    let guide := (← asInts (← field st "perm")).map Int.toNat
+    if guide.length != D || D < 2 || !(guide.mergeSort (fun a b => decide (a ≤ b)) == List.range D) then
+      return oomOut "bad perm"
+    let sl := swizLen guide
+    let sl := if sl = 0 then D else sl
+    let r := D - sl
+    let k := sl - 1
+    if r + (k + 1) != D then return oomOut "depth"
+    let t ← parseTreeC (r + (k + 1)) tin
+    let ar := arities (r + (k + 1)) t
+    if !(wfB (r + (k + 1)) t && aritiesOk ar) then return oomOut "ill-formed input"
+    let g := guide.take (k + 1)
+    let m := swizzle r k g t
+    let exp := swizzleSpec guide (content dflt _ t)
+    let tags := ["swizzle", s!"swizlen{sl}"] ++ (if swizLen guide = 0 then ["identityPerm"] else []) ++ treeTags dflt _ t
+    pure (judge (r + (k + 1)) (some m) dflt (some exp) obs tags)
+  | "swap" =>
+    let k ← fNat st "k"
+    if D < k + 2 then return oomOut "depth"
+    let r := D - 2 - k
+    let t ← parseTreeC (r + 2 + k) tin
+    let ar := arities (r + 2 + k) t
+    if !(wfB _ t && aritiesOk ar && intAt ar k && intAt ar (k + 1)) then return oomOut "ill-formed input"
+    let m := swapT (· ++ ·) List.reverse hdC tlC dflt r k t
+    let exp := swizzleSpec (swapGuide k) (content dflt _ t)
+    let tags := ["swap", s!"k{k}"] ++ (if allEmptyAt dflt (r + 1) k t then ["guardAllEmpty"] else []) ++
+      (if m.isNone then ["modelErr"] else []) ++ treeTags dflt _ t
+    pure (judge (r + 2 + k) m dflt (some exp) obs tags)
+  | "flatten" | "merge" =>
+    let k ← fNat st "k"
+    let L ← fNat st "levels"
+    let style ← styleOf (← fStr st "style")
+    let mf ← if op == "flatten" then pure mfRaise else mfOf (fStrD st "mf" "sum")
+    if L = 0 || D < k + L + 1 then return oomOut "depth"
+    let l := L - 1
+    let r := D - 2 - l - k
+    let t ← parseTreeC (r + 2 + l + k) tin
+    let ar := arities (r + 2 + l + k) t
+    let arith := style != .tuple && style != .pair
+    if !(wfB _ t && aritiesOk ar) then return oomOut "ill-formed input"
+    if arith && !((List.range (L + 1)).all (fun i => intAt ar (k + i))) then return oomOut "arithmetic style on tuples"
+    if style == .linear && shapes.length != D then return oomOut "linear without shape"
+    let comb := combOf style shapes k L
+    let lin := style == .linear
+    let m := mergeT (!arith) lin 0 comb mf dflt r l k t
+    let clash := (mergeT false lin 0 comb mf dflt r l k t).isSome && m.isNone
+    let ideal := mergeT false false dflt comb mf dflt r l k t
+    let lastAttr := !clash && !(match m, ideal with | some a, some b => decide (a = b) | none, none => true | _, _ => false)
+    let c := content dflt _ t
+    let exp := if op == "flatten" then flattenSpec comb k l c else mergeSpec comb mf dflt k l c
+    let collide := (flattenSpec comb k l c).isNone
+    let tags := [op, (fStrD st "style" ""), s!"k{k}", s!"levels{L}", s!"r{r}"] ++
+      (if op == "merge" then [fStrD st "mf" "sum"] else []) ++
+      (if collide then ["collision"] else []) ++ (if clash then ["actRangeClash"] else []) ++ (if lastAttr then ["lastChildAttrs"] else []) ++ (if m.isNone then ["modelErr"] else []) ++ treeTags dflt _ t
+    pure (judge (r + 1 + k) m dflt exp obs tags)
+  | "unflatten" =>
+    let k ← fNat st "k"
+    let L ← fNat st "levels"
+    if L = 0 || D < k + 1 then return oomOut "depth"
+    let l := L - 1
+    let r := D - 1 - k
+    let t ← parseTreeC (r + 1 + k) tin
+    let ar := arities (r + 1 + k) t
+    if !(wfB _ t && aritiesOk ar && (arityAt ar k).getD (L + 1) ≥ L + 1) then return oomOut "ill-formed input"
+    let declared := match (field st "declared") with | .ok (Json.bool b) => b | _ => true
+    let m := unflattenTS declared hdC tlC dflt r l k t
+    let noShape := m.isNone && (unflattenT hdC tlC dflt r l k t).isSome
+    let exp := unflattenSpec hdC tlC k l (content dflt _ t)
+    let tags := ["unflatten", s!"k{k}", s!"levels{L}"] ++ (if allEmptyAt dflt r k t then ["guardAllEmpty"] else []) ++
+      (if noShape then ["undeclaredEmptyRank"] else []) ++
+      (if m.isNone then ["modelErr"] else []) ++ treeTags dflt _ t
+    -- `Tensor.unflattenRanks` does not carry the default over: the result has default 0
+    pure (judge (r + 2 + l + k) m 0 (some exp) obs tags (some dflt))
+  | _ => throw s!"C09: unknown op {op}"
+
+end C09D
+
+open C09D in
+def handleC09 (j : Json) : Except String Verdict := do
+  let stages ← fArr j "stages"
+  let mut agree := true
+  let mut spec := true
+  let mut tags : List String := []
+  let mut models : List Json := []
+  let mut why := ""
+  let mut oom := false
+  for st in stages do
+    let o ← runStage st
+    if o.oom then oom := true
+    agree := agree && o.agree
+    spec := spec && o.spec
+    tags := tags ++ o.tags
+    models := models ++ [o.model]
+    if o.why != "" && why == "" then why := s!"{(fStrD st "op" "?")}: {o.why}"
+  if oom then return { agree := true, spec := true, tags := ["OUT_OF_MODEL"], why }
+  -- round trip: the last observation has the content of the first input
+  match j.getObjVal? "roundtrip" with
+  | .ok rt =>
+    let d ← fNat rt "depth"
+    let a ← parseTreeC d (← field rt "first")
+    let ok := match parseTreeC d (← field rt "last") with
+      | .ok b => decide (content (fIntD rt "first_dflt" 0) d a = content (fIntD rt "last_dflt" 0) d b) && wfB d b
+      | .error _ => false
+    tags := tags ++ ["roundtrip"]
+    if !ok then
+      spec := false
+      if why == "" then why := "round trip does not restore the content"
+  | .error _ => pure ()
+  pure { agree, spec, model := jList models, tags := tags.eraseDups, why }
 
 end FtDriver
